@@ -1,6 +1,7 @@
 import typing
 from ast import *
 
+import oneliner.namespaces
 from oneliner.namespaces import Namespace
 
 __all__ = [
@@ -234,6 +235,35 @@ class PendingLambda(PendingExprGeneric[Lambda]):
         return Lambda(args=self.converted_args, body=self.converted_body)
 
 
+class PendingZeroArgSuper(PendingExprGeneric[Call]):
+    """
+    `super()` in a method is converted to `super(__class__, self)`.
+    The zero-argument form finds the first argument of the caller,
+    which is not the method anymore if the call is in a loop
+    (the body of a loop is converted to a comprehension, which is a function before python 3.12)
+    """
+
+    def __init__(self, node: Call, nsp: "oneliner.namespaces.NamespaceFunction"):
+        self.node = node
+        self.nsp = nsp
+        self.iter_fields = self._iter_fields()
+
+    def _iter_fields(self):
+        return
+        yield
+
+    def get_result(self) -> expr:
+        first_parameter = self.nsp.symt.get_parameters()[0]
+        return Call(
+            func=self.node.func,
+            args=[
+                Name(id="__class__", ctx=Load()),
+                self.nsp.get_load_name(first_parameter),
+            ],
+            keywords=[],
+        )
+
+
 class ExpressionTransformer:
     def __init__(self, nsp: Namespace):
         self.pending_stack: list[PendingExprGeneric] = []
@@ -248,6 +278,17 @@ class ExpressionTransformer:
             return PendingComp(node, self.nsp)
         elif isinstance(node, Lambda):
             return PendingLambda(node, self.nsp)
+        elif (
+            isinstance(node, Call)
+            and isinstance(node.func, Name)
+            and node.func.id == "super"
+            and not node.args
+            and not node.keywords
+            and getattr(self.nsp, "zero_arg_super_used", False)
+            and len(self.nsp.symt.get_parameters()) > 0
+            and not any(isinstance(i, PendingLambda) for i in self.nsp.comp_stack)
+        ):
+            return PendingZeroArgSuper(node, self.nsp)
         else:
             return PendingExpr(node)
 
